@@ -559,6 +559,10 @@ class ExprMixin:
                 not self.index_known(base, idx, fr) and \
                 not (isinstance(base, Sym) and base.op == 'attr' and base.args[1] == 'args'):
             self.risk(fr, 'index', ('builtins.IndexError',), base, node)
+        if isinstance(base, Sym) and base.op == 'phi' and base.args and all(isinstance(a, DictV) for a in base.args) and \
+                any(not a.complete or a.get(idx) is not None for a in base.args):
+            # alternatives of a mapping that is filled under keys the source does not spell out: nothing is known to be missing
+            return Sym('index', base, idx)
         if fr is not None and isinstance(idx, str) and isinstance(base, (Sym, FieldV)):
             self.risk(fr, 'key', ('builtins.KeyError',), base, node)
         if isinstance(base, ListV) and isinstance(idx, int) and not isinstance(idx, bool):
